@@ -43,12 +43,16 @@ Inductive expr :=
 | ENot (t : ity) (a : expr)                (* !a *)
 | EIdxE (a : string) (i : expr)            (* a[i], i a computed usize *)
 | EFromLe (a : string) (n : nat)           (* uN::from_le_bytes([a[0], a[1], .., a[n-1]]) *)
+| EMin (a b : expr)                        (* a.min(b) *)
 | EUnsupported (s : string).
 
 Inductive place := PVar (x : string) | PIdx (a : string) (i : idx) | PIdxE (a : string) (i : expr).
 Inductive cond :=
 | CNe (a b : expr) | CEq (a b : expr) | CGt (a b : expr) | CLt (a b : expr)
-| CLenGt (a b : string).                   (* a.len() > b.len() *)
+| CLenGt (a b : string)                    (* a.len() > b.len() *)
+| CLe (a b : expr)
+| CIsEmpty (a : string)                    (* a.is_empty() *)
+| CNot (c : cond).
 Inductive arg := AVal (e : expr) | AArr (a : string) | AK (i : idx).
 
 Inductive stmt :=
@@ -70,13 +74,33 @@ Inductive stmt :=
 | SForChunks (x k : string) (d : string) (n cnt : nat) (body : list stmt)
                                                         (* for (x, dest) in d.chunks_exact(n).zip(<array of cnt>.iter_mut()) { body }:
                                                            x is bound to the k-th chunk, the index variable k stands for dest *)
+| SDebugAssert (c : cond)                               (* debug_assert!(c, ..) *)
+| SLetViewFrom (x : string) (a : string) (from : expr)  (* let x = a.get_mut(from..).unwrap_or_default() *)
+| SLetSplit (h t : string) (a : string) (mid : expr)    (* let (h, t) = a.split_at(mid) *)
+| SSetOpt (x : string) (src : option string)            (* x = None / x = Some(src) *)
+| SLetViewRange (x : string) (a : string) (lo hi : option expr)   (* let x = &mut a[lo..hi] *)
+| SLetSplitView (h t : string) (v : string) (mid : expr)          (* let (h, t) = v.split_at_mut(mid), v a view *)
+| SLetToLe (x : string) (e : expr) (n : nat)                      (* x = e.to_le_bytes(), n bytes *)
+| SCallSub (dst : option string) (f : string) (args : list arg) (fmap : list (string * string))
+      (* dst = self.<sub>.f(args): the callee runs on the fields of the sub-object; fmap pairs each callee name ("self.buf") with
+         the caller's name of the same field ("self.buffer.buf") *)
+| SForAllChunks (x : string) (d : string) (n : nat) (body : list stmt)
+      (* let mut chunks = d.chunks_exact(n); for x in chunks.by_ref() { body } *)
+| SLetChunksRem (x : string) (d : string) (n : nat)     (* x = chunks.remainder() of d.chunks_exact(n) *)
+| SIfSome (o : string) (x : string) (body : list stmt)  (* if let Some(x) = o { body } *)
 | SUnsupported (s : string).
 
-Inductive ret := RNone | RVal (e : expr) | RArr (es : list expr) | RTuple (es : list expr) | RVarArr (x : string).
+Inductive ret := RNone | RVal (e : expr) | RArr (es : list expr) | RTuple (es : list expr) | RVarArr (x : string)
+| RVar (x : string)                        (* whatever value the variable holds (Option results) *)
+| RCond (c : cond)                         (* a bool, as 1 / 0 *)
+| RPrefixOr (a : string) (n : expr).       (* a.get(..n).unwrap_or(&a) *)
 Inductive pkind := KVal | KArr | KIdx.
 Record fndef := { f_params : list (string * pkind); f_body : list stmt; f_ret : ret }.
 
-Inductive val := VN (n : N) | VA (l : list N) | VK (k : nat) | VT (l : list N).
+Inductive val :=
+| VN (n : N) | VA (l : list N) | VK (k : nat) | VT (l : list N)
+| VV (a : string) (off len : nat)          (* a mutable view  &mut a[off .. off+len]  of an array variable *)
+| VO (o : option (list N)).                (* Option<&[u8]> *)
 Definition env := list (string * val).
 
 Fixpoint lookup (e : env) (x : string) : option val :=
@@ -103,6 +127,13 @@ Record state := { genv : env; lenv : env }.
 Definition get (s : state) (x : string) : option val := if is_self x then lookup (genv s) x else lookup (lenv s) x.
 Definition put (s : state) (x : string) (v : val) : state :=
   if is_self x then {| genv := upd (genv s) x v; lenv := lenv s |} else {| genv := genv s; lenv := upd (lenv s) x v |}.
+
+Definition len_of (s : state) (x : string) : option nat :=
+  match get s x with
+  | Some (VA l) => Some (List.length l)
+  | Some (VV _ _ n) => Some n
+  | _ => None
+  end.
 
 Definition eval_idx (s : state) (i : idx) : res nat :=
   match i with
@@ -145,7 +176,7 @@ Fixpoint eval (p : profile) (s : state) (e : expr) : res N :=
   | ETrunc t a => do x <- eval p s a ;; Ok (N.land x (mask t))
   | EWiden a => eval p s a
   | ETup x k => match get s x with Some (VT l) => match nth_opt l k with Some v => Ok v | None => Fault end | _ => Fault end
-  | ELen a => match get s a with Some (VA l) => Ok (N.of_nat (List.length l)) | _ => Fault end
+  | ELen a => match len_of s a with Some n => Ok (N.of_nat n) | None => Fault end
   | ENot t a => do x <- eval p s a ;; Ok (N.lxor (N.land x (mask t)) (mask t))
   | EIdxE a i =>
       do k <- eval p s i ;;
@@ -153,6 +184,7 @@ Fixpoint eval (p : profile) (s : state) (e : expr) : res N :=
       | Some (VA l) => match nth_opt l (N.to_nat k) with Some x => Ok x | None => Panic end
       | _ => Fault
       end
+  | EMin a b => do x <- eval p s a ;; do y <- eval p s b ;; Ok (N.min x y)
   | EFromLe a n =>
       match get s a with
       | Some (VA l) => if (n <=? List.length l)%nat then Ok (le_bytes (firstn n l)) else Panic     (* a[k] out of bounds *)
@@ -184,16 +216,19 @@ Definition assign (p : profile) (s : state) (pl : place) (x : N) : res state :=
       end
   end.
 
-Definition eval_cond (p : profile) (s : state) (c : cond) : res bool :=
+Fixpoint eval_cond (p : profile) (s : state) (c : cond) : res bool :=
   match c with
   | CNe a b => do x <- eval p s a ;; do y <- eval p s b ;; Ok (negb (x =? y))
   | CEq a b => do x <- eval p s a ;; do y <- eval p s b ;; Ok (x =? y)
   | CGt a b => do x <- eval p s a ;; do y <- eval p s b ;; Ok (y <? x)
   | CLt a b => do x <- eval p s a ;; do y <- eval p s b ;; Ok (x <? y)
-  | CLenGt a b => match get s a, get s b with
-                  | Some (VA la), Some (VA lb) => Ok (List.length lb <? List.length la)%nat
+  | CLe a b => do x <- eval p s a ;; do y <- eval p s b ;; Ok (x <=? y)
+  | CLenGt a b => match len_of s a, len_of s b with
+                  | Some la, Some lb => Ok (lb <? la)%nat
                   | _, _ => Fault
                   end
+  | CIsEmpty a => match len_of s a with Some n => Ok (Nat.eqb n 0) | None => Fault end
+  | CNot c' => do x <- eval_cond p s c' ;; Ok (negb x)
   end.
 
 (* bounds of a range a[lo..hi] over a sequence of length len: Rust panics unless lo <= hi <= len *)
@@ -231,6 +266,36 @@ Fixpoint param_values (ps : list (string * pkind)) (callee : env) : list (option
 Fixpoint find_fn (fns : list (string * fndef)) (f : string) : option fndef :=
   match fns with [] => None | (g, d) :: fns' => if String.eqb g f then Some d else find_fn fns' f end.
 
+(* the whole chunks of l, in order (fuel: the length of l suffices) *)
+Fixpoint chunk_loop {St : Type} (n : nat) (step : list N -> St -> res St) (fuel : nat) (l : list N) (s : St) : res St :=
+  match fuel with
+  | O => Ok s
+  | S k => if (n <=? List.length l)%nat && (0 <? n)%nat
+           then do s' <- step (firstn n l) s ;; chunk_loop n step k (skipn n l) s'
+           else Ok s
+  end.
+Fixpoint chunk_rem (n : nat) (fuel : nat) (l : list N) : list N :=
+  match fuel with
+  | O => l
+  | S k => if (n <=? List.length l)%nat && (0 <? n)%nat then chunk_rem n k (skipn n l) else l
+  end.
+(* fields of a sub-object, under the callee's names; and back *)
+Fixpoint sub_env (g : env) (fmap : list (string * string)) : option env :=
+  match fmap with
+  | [] => Some []
+  | (callee, caller) :: m =>
+      match lookup g caller, sub_env g m with
+      | Some v, Some e => Some ((callee, v) :: e)
+      | _, _ => None
+      end
+  end.
+Fixpoint merge_back (g : env) (sub : env) (fmap : list (string * string)) : env :=
+  match fmap with
+  | [] => g
+  | (callee, caller) :: m =>
+      merge_back (match lookup sub callee with Some v => upd g caller v | None => g end) sub m
+  end.
+
 Section Exec.
   Variable p : profile.
   (* calls, provided by the level below (fuel): name, fields of self, argument values
@@ -248,7 +313,11 @@ Section Exec.
     match st with
     | SLet x e => do v <- eval p s e ;; Ok (put s x (VN v))
     | SLetArr x es => do vs <- eval_list p s es ;; Ok (put s x (VA vs))
-    | SCopyArr x y => match get s y with Some (VA l) => Ok (put s x (VA l)) | _ => Fault end
+    | SCopyArr x y => match get s y with
+                      | Some (VA l) => Ok (put s x (VA l))
+                      | Some (VV a o n) => Ok (put s x (VV a o n))        (* x = y for views *)
+                      | _ => Fault
+                      end
     | SSet pl e => do v <- eval p s e ;; assign p s pl v
     | SFor i lo hi body =>
         (fix loop (ks : list nat) (s : state) : res state :=
@@ -271,9 +340,10 @@ Section Exec.
         | Some _, None => Fault
         end
     | SIfBufNonEmpty body =>
-        match lookup (genv s) "self.buffer.is_empty" with
-        | Some (VK 1) => Ok s
-        | Some (VK 0) =>
+        (* HashPacket::is_empty is  self.buf_index == 0  (tied separately: pkt_is_empty) *)
+        match lookup (genv s) "self.buffer.buf_index" with
+        | Some (VN 0) => Ok s
+        | Some (VN _) =>
             (fix block (b : list stmt) (s : state) : res state :=
                match b with [] => Ok s | st' :: b' => do s1 <- exec st' s ;; block b' s1 end) body s
         | _ => Fault
@@ -286,11 +356,27 @@ Section Exec.
     | SLetRepeat x v n => do y <- eval p s v ;; Ok (put s x (VA (repeat y n)))
     | SLetSlice x a lo hi =>
         match get s a with
-        | Some (VA l) => do r <- range_of p s lo hi (List.length l) ;; Ok (put s x (VA (firstn (snd r - fst r) (skipn (fst r) l))))
+        | Some (VA l) =>
+            do r <- range_of p s lo hi (List.length l) ;;
+            Ok (put s x (VA (match lo with
+                             | None => firstn (snd r) l                       (* a[..hi] *)
+                             | Some _ => firstn (snd r - fst r) (skipn (fst r) l)
+                             end)))
         | _ => Fault
         end
     | SCopyRange dst dlo dhi src slo shi =>
         match get s dst, get s src with
+        | Some (VV a off vlen), Some (VA ls) =>
+            (* the destination is a view of the array a: the bytes land in a *)
+            match get s a with
+            | Some (VA la) =>
+                do rd <- range_of p s dlo dhi vlen ;;
+                do rs <- range_of p s slo shi (List.length ls) ;;
+                if Nat.eqb (snd rd - fst rd) (snd rs - fst rs)
+                then Ok (put s a (VA (write_at la (off + fst rd) (firstn (snd rs - fst rs) (skipn (fst rs) ls)))))
+                else Panic
+            | _ => Fault
+            end
         | Some (VA ld), Some (VA ls) =>
             do rd <- range_of p s dlo dhi (List.length ld) ;;
             do rs <- range_of p s slo shi (List.length ls) ;;
@@ -301,6 +387,15 @@ Section Exec.
         end
     | SZipCopy dst dlo src slo =>
         match get s dst, get s src with
+        | Some (VV a off vlen), Some (VA ls) =>
+            match get s a with
+            | Some (VA la) =>
+                do rd <- range_of p s dlo None vlen ;;
+                do rs <- range_of p s slo None (List.length ls) ;;
+                Ok (put s a (VA (write_at la (off + fst rd)
+                                          (firstn (Nat.min (snd rd - fst rd) (snd rs - fst rs)) (skipn (fst rs) ls)))))
+            | _ => Fault
+            end
         | Some (VA ld), Some (VA ls) =>
             do rd <- range_of p s dlo None (List.length ld) ;;
             do rs <- range_of p s slo None (List.length ls) ;;
@@ -323,6 +418,81 @@ Section Exec.
                end) (seq 0 cnt) s
         | _ => Fault
         end
+    | SDebugAssert c => do bq <- eval_cond p s c ;; if dbg p && negb bq then Panic else Ok s
+    | SLetViewFrom x a from =>
+        do f <- eval p s from ;;
+        match get s a with
+        | Some (VA l) =>
+            (* get_mut(from..) is None when from > len; unwrap_or_default() then gives the empty slice *)
+            if (N.to_nat f <=? List.length l)%nat then Ok (put s x (VV a (N.to_nat f) (List.length l - N.to_nat f)))
+            else Ok (put s x (VV a 0 0))
+        | _ => Fault
+        end
+    | SLetSplit h t a mid =>
+        do m <- eval p s mid ;;
+        match get s a with
+        | Some (VA l) =>
+            if (N.to_nat m <=? List.length l)%nat
+            then Ok (put (put s h (VA (firstn (N.to_nat m) l))) t (VA (skipn (N.to_nat m) l)))
+            else Panic                                               (* mid > len *)
+        | _ => Fault
+        end
+    | SSetOpt x src =>
+        match src with
+        | None => Ok (put s x (VO None))
+        | Some y => match get s y with Some (VA l) => Ok (put s x (VO (Some l))) | _ => Fault end
+        end
+    | SLetViewRange x a lo hi =>
+        match get s a with
+        | Some (VA l) => do r <- range_of p s lo hi (List.length l) ;; Ok (put s x (VV a (fst r) (snd r - fst r)))
+        | _ => Fault
+        end
+    | SLetSplitView h t v mid =>
+        do m <- eval p s mid ;;
+        match get s v with
+        | Some (VV a off len) =>
+            if (N.to_nat m <=? len)%nat
+            then Ok (put (put s h (VV a off (N.to_nat m))) t (VV a (off + N.to_nat m) (len - N.to_nat m)))
+            else Panic                                               (* mid > len *)
+        | _ => Fault
+        end
+    | SLetToLe x e n => do v <- eval p s e ;; Ok (put s x (VA (to_le_bytes n v)))
+    | SCallSub dst f args fmap =>
+        do vs <- eval_args p s args ;;
+        match sub_env (genv s) fmap with
+        | Some g0 =>
+            do r <- call f g0 vs ;;
+            let '(g', finals, rv) := r in
+            let s2 := copy_out {| genv := merge_back (genv s) g' fmap; lenv := lenv s |} args finals in
+            match dst, rv with
+            | None, _ => Ok s2
+            | Some x, Some v => Ok (put s2 x v)
+            | Some _, None => Fault
+            end
+        | None => Fault
+        end
+    | SForAllChunks x d n body =>
+        match get s d with
+        | Some (VA l) =>
+            chunk_loop n (fun c s0 =>
+                            (fix block (b : list stmt) (s : state) : res state :=
+                               match b with [] => Ok s | st' :: b' => do s1 <- exec st' s ;; block b' s1 end)
+                            body (put s0 x (VA c))) (List.length l) l s
+        | _ => Fault
+        end
+    | SLetChunksRem x d n =>
+        match get s d with
+        | Some (VA l) => Ok (put s x (VA (chunk_rem n (List.length l) l)))
+        | _ => Fault
+        end
+    | SIfSome o x body =>
+        match get s o with
+        | Some (VO None) => Ok s
+        | Some (VO (Some l)) =>
+            (fix block (b : list stmt) (s : state) : res state :=
+               match b with [] => Ok s | st' :: b' => do s1 <- exec st' s ;; block b' s1 end) body (put s x (VA l))
+        | _ => Fault
+        end
     | SUnsupported _ => Fault
     end.
 
@@ -336,6 +506,14 @@ Section Exec.
     | RArr es => do xs <- eval_list p s es ;; Ok (Some (VA xs))
     | RTuple es => do xs <- eval_list p s es ;; Ok (Some (VT xs))
     | RVarArr x => match get s x with Some (VA l) => Ok (Some (VA l)) | _ => Fault end
+    | RVar x => match get s x with Some v => Ok (Some v) | None => Fault end
+    | RCond c => do bq <- eval_cond p s c ;; Ok (Some (VN (if bq then 1 else 0)))
+    | RPrefixOr a n =>
+        do k <- eval p s n ;;
+        match get s a with
+        | Some (VA l) => Ok (Some (VA (if (N.to_nat k <=? List.length l)%nat then firstn (N.to_nat k) l else l)))
+        | _ => Fault
+        end
     end.
 
   Definition run_fn (d : fndef) (g : env) (vs : list val) : res (env * list (option val) * option val) :=
